@@ -6,7 +6,9 @@ spec:      spec/EdScript.tla       reference (EdApply/EdRun/Target), text layer 
            spec/TraceEdScript.tla  trace validation re-using EdApply / Parse
 model checking (bounded): every buffer of <= 3 (thorough 4) lines over 2 line ids x every generator
            script of <= 2 (thorough 3) commands with blocks of 1..2 lines: ImplEqualsEd,
-           TargetReached, SequentiallyValid, CorruptRaises.
+           TargetReached, StructureConsistent, SequentiallyValid, CorruptRaises.  Quick replays
+           every state of its bound; thorough model-checks the full bound (1.9 M states) and
+           replays every state of the sub-bounds 4 lines x 2 commands and 3 lines x 3 commands.
            Spec-level negative controls, re-run in every check (each must make TLC report the named
            invariant): OffByOne -> ImplEqualsEd, AcceptUnterminated (the code before commit
            11ace49) -> CorruptRaises, Ascending -> TargetReached.
@@ -15,7 +17,7 @@ binding:   (a) every CASE line of TLC (old, script, expected new) and every CORR
                newline styles and source kinds: list / tuple / iterator / generator / file-like /
                readline-iterator) and replayed into
                patch_lines(list(old), patches_from_ed_script(source));
-           (a') no state between calls: for every case (thorough: 1 in 16) one materialised
+           (a') no state between calls: for every case (thorough: 1 in 4) one materialised
                patches list is applied to two copies of old (copy 1 mutated in between), the script
                is parsed twice with the first parse's hunk lists mutated in between, two generators
                over two different scripts are advanced alternately, and the caller's script / old
@@ -565,7 +567,7 @@ class HashChoice:
         return (self._next() % 10007) / 10007.0
 
 
-def replay_cases(ctx, raw_path, maxbuf, quick):
+def replay_cases(ctx, raw_paths, maxbuf, quick):
     rng = ctx.rng
     nids = 2
     # pre-drawn concretizations (seeded), selected per case by a hash of the case
@@ -581,11 +583,11 @@ def replay_cases(ctx, raw_path, maxbuf, quick):
     per_style = {}
     samples = {}
     stash = []
-    stash_mod = 1 if quick else 16
-    scale_mod = 23 if quick else 97
+    stash_mod = 1 if quick else 4
+    scale_mod = 23 if quick else 37
     nscaled = 0
     scaled_sizes = {}
-    for tag, v, h in stream_printed(raw_path):
+    for tag, v, h in (x for rp in raw_paths for x in stream_printed(rp)):
         if len(ctx.violations) >= 5:
             break
         hc = HashChoice(h ^ (ctx.seed * 2654435761 & 0x7FFFFFFF))
@@ -1200,15 +1202,30 @@ def run(ctx):
     ]
     # 1. the invariants can fail
     spec_negative_controls(ctx)
-    # 2. design level + emission: all buffers x all generator scripts x all single corruptions
-    r = ctx.tlc_must_hold("EdScript", cfg, workers=4 if quick else 8, keep_raw=True, want_tags=set())
-    ncase, ncorr = replay_cases(ctx, r.raw_path, int(consts["MaxBuf"]), quick)
-    if not ctx.violations and ncase != r.distinct:
-        raise core.MachineryError("TLC found %d states but %d CASE lines were read" % (r.distinct, ncase))
+    # 2. design level + emission: all buffers x all generator scripts x all single corruptions.
+    #    thorough: the full bound is model-checked without emission; the cases that are replayed
+    #    come from the two largest sub-bounds (4 lines x 2 commands, 3 lines x 3 commands)
+    if quick:
+        emit = [(cfg, 4)]
+    else:
+        ctx.tlc_must_hold("EdScript", cfg, workers=8)
+        emit = [("EdScript_emit42.cfg", 8), ("EdScript_emit33.cfg", 8)]
+    raws, nstates, maxbuf = [], 0, 0
+    for ecfg, w in emit:
+        ec = cfg_constants(ecfg)
+        ctx.extra.setdefault("emission_constants", {})[ecfg] = {k: ec[k] for k in ("MaxBuf", "MaxCmds")}
+        maxbuf = max(maxbuf, int(ec["MaxBuf"]))
+        r = ctx.tlc_must_hold("EdScript", ecfg, workers=w, keep_raw=True, want_tags=set())
+        raws.append(r.raw_path)
+        nstates += r.distinct
+    ncase, ncorr = replay_cases(ctx, raws, maxbuf, quick)
+    if not ctx.violations and ncase != nstates:
+        raise core.MachineryError("TLC found %d states but %d CASE lines were read" % (nstates, ncase))
     if not ctx.violations and ncorr == 0:
         raise core.MachineryError("no CORRUPT line emitted")
     import shutil
-    shutil.rmtree(os.path.dirname(r.raw_path), ignore_errors=True)
+    for rp in raws:
+        shutil.rmtree(os.path.dirname(rp), ignore_errors=True)
     ctx.traces += ncase + ncorr
     # 3. unspecified zone: executed, recorded
     unspecified_zone(ctx)
